@@ -160,6 +160,10 @@ def oo(pos=3):
     return [(A, CIA_DEF, OO_CLASSES.replace('@POS@', str(pos)) + CIA_DEF), (A, CIA_GUARDS, "    CIA_SPEC.check(imm)\n"), (A, CIA_BODY, OO_BODY)]
 
 
+FENCE_SUCC_GUARD = ("    if succ < 0b0000 or succ > 0b1111:\n        raise ValueError('invalid successor value for FENCE instruction: {}'.format(succ))\n")
+FENCE_PRED_GUARD = ("    if pred < 0b0000 or pred > 0b1111:\n        raise ValueError('invalid predecessor value for FENCE instruction: {}'.format(pred))\n")
+FENCE_PRED_RAISE = "        raise ValueError('invalid predecessor value for FENCE instruction: {}'.format(pred))\n"
+
 PRESERVING = [
     ('p-enc-get-none', ENC, [(A, TABLE_TRY, GET_NONE)]),
     ('p-enc-membership', ENC, [(A, TABLE_TRY, MEMBER)]),
@@ -195,6 +199,11 @@ PRESERVING = [
     ('p-enc-creg-by-mask', ENC, [(A, COMPRESSED_TAIL, CREG_MASK % 1)]),
     ('p-enc-slide-in-place', ENC, [(A, ITYPE_MASK_TAIL, ITYPE_SLIDE % '0xfff00000')]),
     ('p-enc-helper-classes', ENC, oo()),
+    ('p-enc-fence-chained-guards', ENC, [(A, FENCE_SUCC_GUARD, "    if not 0 <= succ <= 0b1111:\n        raise ValueError('invalid successor value for FENCE instruction: {}'.format(succ))\n"),
+                                          (A, FENCE_PRED_GUARD, "    if not 0 <= pred <= 0b1111:\n" + FENCE_PRED_RAISE)]),
+    ('p-enc-fence-merged-guard', ENC, [(A, FENCE_SUCC_GUARD, ""),
+                                        (A, FENCE_PRED_GUARD, "    if not (0 <= succ <= 0b1111 and 0 <= pred <= 0b1111):\n        raise ValueError('invalid successor / predecessor value for FENCE instruction: {} {}'.format(succ, pred))\n")]),
+    ('p-enc-fence-imm-by-arithmetic-guarded', ENC, [(A, FENCE_IMM, "    imm = (fm * 16 + pred) * 16 + succ\n")]),
     ('p-enc-log-call', ENC, [(A, ITYPE_GUARD, "    log.debug('i-type immediate %s', imm)\n" + ITYPE_GUARD, 0)]),
 ]
 
@@ -227,10 +236,18 @@ BREAKING = [
     ('c02-creg-by-mask-low', ['C02'], [(A, COMPRESSED_TAIL, CREG_MASK % 0)]),
     ('c01-slide-in-place-short', ['C01'], [(A, ITYPE_MASK_TAIL, ITYPE_SLIDE % '0x7ff00000')]),
     ('c02-helper-classes-pos', ['C02'], oo(4)),
+    # the guard of one fence set tests the other operand (copy / paste): the 12-bit check of i_type on the composite
+    # fm << 8 | pred << 4 | succ is all that is left for pred
+    ('c06-fence-pred-negative-unguarded', ['C01', 'C06'], [(A, FENCE_PRED_GUARD, "    if succ < 0b0000 or pred > 0b1111:\n" + FENCE_PRED_RAISE)]),
+    ('c06-fence-pred-upper-unguarded', ['C01', 'C06'], [(A, FENCE_PRED_GUARD, "    if pred < 0b0000 or succ > 0b1111:\n" + FENCE_PRED_RAISE)]),
+    ('c06-fence-merged-guard-slip', ['C01', 'C06'], [(A, FENCE_SUCC_GUARD, ""),
+                                                     (A, FENCE_PRED_GUARD, "    if not (0 <= succ <= 0b1111 and 0 <= succ and pred <= 0b1111):\n" + FENCE_PRED_RAISE)]),
     ('c02-closure-message-value', ['C02', 'C06'], [(A, CNOT, CNOT_MSG.replace('fields[field] == value', 'fields[field] != value'))]),
 ]
 
 UNDECIDED = [
+    # successor unguarded below: (pred << 4) | succ with a negative low part is not a sum of fields, no closed form in the domain
+    ('u-enc-fence-succ-negative-unguarded', ['C06'], [(A, FENCE_SUCC_GUARD, "    if pred < 0b0000 or succ > 0b1111:\n        raise ValueError('invalid successor value for FENCE instruction: {}'.format(succ))\n")]),
     # overlapping fields added with carries: not a bit-disjoint union, no closed form in the domain
     ('u-enc-fields-by-arithmetic-overlap', ['C01'], [(A, FENCE_IMM, "    imm = fm * 256 + pred * 8 + succ\n")]),
     # int spellings of a register (ecall's pre-bound rd=0, numeric operands) would raise TypeError: not modelled per spelling
